@@ -343,6 +343,22 @@ def run(ctx):
                         'allocation failures are std::bad_alloc thrown by the table\'s memory manager',
                         'std::lower_bound is modelled by a linear scan (equal on sorted segments, which is the proved invariant)']
     ctx.regen(GEN)
+    # round 8: statement trees of the DataIndexes / UniqueHash member functions cxx2coq cannot translate (range-for, lambdas,
+    # try/catch, calls into sub-objects), dumped by props/C07/proto2coq.py; their meaning and the equalities with the hand
+    # model are in ProtoSem.v / ProtoProofs.v / FitSem.v / UHashSem.v / UHashProofs.v
+    import proto2coq
+    gpath = os.path.join(ctx.cdir, 'Gen_Protocol.v')
+    try:
+        txt = proto2coq.translate(repo=ctx.repo)
+        if not os.path.exists(gpath) or open(gpath).read() != txt:
+            open(gpath, 'w').write(txt)
+        ctx.tie_obligations.append({'name': 'translate Gen_Protocol (call/control skeletons of AddRaw, RemoveRaw, UpdateRaw x2, GetFit*Index, UniqueHash ops)', 'ok': True,
+                                    'sha256': __import__('hashlib').sha256(txt.encode()).hexdigest()[:16]})
+        ctx.stage('regen-protocol', True)
+    except Exception as e:
+        if os.path.exists(gpath): os.remove(gpath)       # a stale model must not keep the proofs green
+        ctx.tie_obligations.append({'name': 'translate Gen_Protocol', 'ok': False, 'error': str(e)[:500]})
+        ctx.stage('regen-protocol', False, str(e)[:2000])
     ctx.prove()
     exes = build_harnesses(ctx)
     missing = [k for k, v in exes.items() if v is None]
